@@ -38,6 +38,11 @@ Definition global_maps_ok (accs : list (string * string * bool * bool)) : bool :
 Definition captured_ok (accs : list (string * string * bool * bool)) : bool :=
   forallb (fun a => let '(_, _, _, ok) := a in ok) accs.
 
+(* the discipline speaks of THE owner goroutine of a value: every statement starting a run loop is kept from running
+   twice for one value (class 0 sync.Once, 1 constructor, 2 entry point called once, 3 atomic compare-and-swap; 9 = not) *)
+Definition single_owner_ok (starts : list (string * string * nat)) : bool :=
+  forallb (fun a => let '(_, _, c) := a in c <? 9) starts.
+
 (* ---------- part 2: traces ---------- *)
 Inductive ev := Acq (t l : nat) | Rel (t l : nat) | Acc (t x : nat) (w : bool).
 Definition thread (e : ev) : nat := match e with Acq t _ | Rel t _ | Acc t _ _ => t end.
